@@ -58,11 +58,13 @@ def check(repo: Repo, rep: Report) -> None:
         return isinstance(e, ast.Call) and isinstance(e.func, ast.Name) and e.func.id == fname
     for g, s, k in TC.downstream_sites(z, ("on_next",)):
         gt = TC.guards_text(s)
-        rep.ob("G1-gating", g, f"zip emits under {gt}", any(p and is_call(e, "all") and mentions(e, queues) for e, p in s.ctx.guards),
+        from ..rules import expanded_guards as _xg
+        rep.ob("G1-gating", g, f"zip emits under {gt}", any(p and is_call(e, "all") and mentions(e, queues) for e, p in _xg(g, s.ctx)),
                "zip emits a tuple although some source has no buffered element")
     for g, s, k in TC.downstream_sites(z, ("on_completed",)):
         gt = TC.guards_text(s)
-        ok = any(p and mentions(e, queues) and (is_call(e, "any") or (isinstance(e, ast.Compare) and "len(" in u(e))) for e, p in s.ctx.guards)
+        from ..rules import expanded_guards as _xg
+        ok = any(p and mentions(e, queues) and (is_call(e, "any") or (isinstance(e, ast.Compare) and "len(" in u(e))) for e, p in _xg(g, s.ctx))
         rep.ob("G1-gating", g, f"zip completes under {gt}", ok, "zip completes although the completed source still has buffered elements")
     # combine_latest -- role: the all-have-value flag is a variable assigned from an expression containing all(<has-value cells>)
     c = repo.fn("reactivex/observable/combinelatest.py", "combine_latest_.subscribe")
